@@ -61,7 +61,7 @@ Proof.
       * destruct (wfail (set_txid s v')).
         -- pose proof (finish_summary (set_wctl (set_txid s v') false 0) r (RErr ReIo)) as H. destruct (finish _ r (RErr ReIo)) as [s' o].
            cbn [fst]. eapply summary_chan; [exact H| | |]; reflexivity.
-        -- destruct (wdelay (set_txid s v') =? 0); cbn [fst]; apply Hsame; auto; cbn; discriminate.
+        -- destruct (write_now (set_txid s v')); cbn [fst]; apply Hsame; auto; cbn; discriminate.
       * pose proof (finish_summary (set_txid s v') r (RErr ReBadRequest)) as H. destruct (finish _ r (RErr ReBadRequest)) as [s' o].
         cbn [fst]. eapply summary_chan; [exact H| | |]; reflexivity.
     + cbn [enabled set_enabled]. apply Hsame; auto. cbn. rewrite Eph. discriminate.
@@ -92,13 +92,20 @@ Proof.
     destruct H as (Hi & _). intros Hnd. destruct (ph s'); try reflexivity; try discriminate Hi; congruence. }
   destruct (ph s) eqn:Eph; try congruence.
   1,2,3,6: (exists []; split; [reflexivity|]; cbn [run fst]; split; [right; repeat split; rewrite ?Eph; discriminate|intros _; rewrite Eph; reflexivity]).
-  - (* a write in progress: it ends, then the request is in flight *)
-    set (s1 := set_ph (set_now s (now s + (fire cfg until - now s))) (PInFlight r tx (now s + (fire cfg until - now s) + rq_timeout r))).
-    destruct (Hfl s1 r tx _ eq_refl) as (es & Hint & Hch & Hls).
-    exists ([EvTick (fire cfg until - now s); EvTimer] ++ es). split; [cbn [forallb app internal andb]; exact Hint|].
-    rewrite run_app. cbn [run step fst]. cbn [ph set_now now]. rewrite Eph.
-    assert (Hle : (fire cfg until <=? now s + (fire cfg until - now s)) = true) by (apply N.leb_le; lia). rewrite Hle. cbn [fst].
-    fold s1. split; [|exact Hls]. destruct Hch as [Hd|(Hq & Hb & Hnd & Hh)]; [left; exact Hd|right; auto].
+  - (* a write in progress: at the latest when its bound (write start + request timeout) is reached the write is done -
+       the request is then in flight - or the request fails and the connection ends; no release is needed *)
+    set (t := fire cfg (wdl s) - now s). set (s0 := set_now s (now s + t)).
+    assert (Hle : (fire cfg (wdl s) <=? now s + t) = true) by (apply N.leb_le; unfold t; lia).
+    destruct (Nat.eqb (wpark s) 0 && (fire cfg until <=? now s + t)) eqn:Ew.
+    + set (s1 := set_ph s0 (PInFlight r tx (now s0 + rq_timeout r))).
+      destruct (Hfl s1 r tx _ eq_refl) as (es & Hint & Hch & Hls).
+      exists ([EvTick t; EvTimer] ++ es). split; [cbn [forallb app internal andb]; exact Hint|].
+      rewrite run_app. cbn [run step fst]. cbn [ph set_now now wpark wdl]. rewrite Eph, Ew. unfold written. cbn [fst].
+      fold s0. fold s1. split; [|exact Hls]. destruct Hch as [Hd|(Hq & Hb & Hnd & Hh)]; [left; exact Hd|right; auto].
+    + exists [EvTick t; EvTimer]. split; [reflexivity|]. cbn [run step fst]. cbn [ph set_now now wpark wdl]. rewrite Eph, Ew, Hle.
+      fold s0. pose proof (finish_summary s0 r (RErr write_timeout_error)) as H.
+      destruct (finish s0 r (RErr write_timeout_error)) as [s' o]. cbn [fst]. split; [eapply summary_chan; [exact H| | |]; reflexivity|].
+      destruct H as (Hi & _). intros Hnd. destruct (ph s'); try reflexivity; try discriminate Hi; congruence.
   - apply (Hfl s r tx deadline Eph).
 Qed.
 
